@@ -169,7 +169,7 @@ def enum_classics(tier):
 
 
 def enum_tiny(tier):
-    stride = 40 if tier == "quick" else 3
+    stride = 10 if tier == "quick" else 1
 
     def it():
         for i, g in enumerate(gen.tiny_grammars(1 if tier == "quick" else 2)):
@@ -184,11 +184,11 @@ SUBCHECKS = [
     SubCheck("classics", run_case, enumerate=enum_classics, setup=G.setup_parse_budget),
     SubCheck("tiny-exhaustive", run_case, enumerate=enum_tiny, setup=G.setup_parse_budget),
     SubCheck("random-L0", run_case, strategy=strat_l0, setup=G.setup_parse_budget,
-             examples={"quick": 320, "thorough": 6000}),
+             examples={"quick": 3200, "thorough": 30000}),
     SubCheck("random-L0-larger", run_case, strategy=strat_l0_big, setup=G.setup_parse_budget,
-             examples={"quick": 96, "thorough": 2000}),
+             examples={"quick": 800, "thorough": 8000}),
     SubCheck("random-L1-overlapping", run_case, strategy=strat_l1, setup=G.setup_parse_budget,
-             examples={"quick": 160, "thorough": 3000}),
+             examples={"quick": 960, "thorough": 10000}),
 ]
 
 
